@@ -52,10 +52,18 @@ def _case(draw):
         sel = list(range(D))
     else:
         sel = [draw(st.integers(0, D - 1))]
+    spell = [draw(st.sampled_from(['name', 'pos', 'neg'])) for _ in sel]
+    if form == 'list' and D >= 2 and draw(st.sampled_from([True, False, False])):
+        # a run of neighbouring columns in one spelling: [1, 2, 3], [-2, -1], or running over the end, [-1, 0]
+        L = draw(st.integers(2, D))
+        start = draw(st.integers(0, D - 1))
+        sel = [(start + i) % D for i in range(L)]
+        how = draw(st.sampled_from(['pos', 'neg', 'cross']))
+        spell = [('neg' if (how == 'neg' or (how == 'cross' and start + i < D)) else 'pos') for i in range(L)]
     return dict(spec=spec, container=draw(st.sampled_from(['raw', 'raw', 'rfi', 'mef'])), form=form, sel=sel,
                 presliced=draw(st.sampled_from([None, None, 'slice', 'list'])), cut=draw(st.integers(0, 4)),
                 iterator=draw(st.sampled_from([None, None, None, 'iter', 'generator'])),
-                spell=[draw(st.sampled_from(['name', 'pos', 'neg'])) for _ in sel])
+                spell=spell)
 
 
 def strategy(tier):
